@@ -5,6 +5,8 @@ import Gen.Matrix4Gen
 import Gen.Matrix3Gen
 import Gen.QuatGen
 import Gen.Vec3Gen
+import Gen.EulerGen
+import Gen.AxisAngleGen
 /-! Model driver for C20: the generated closed forms and the `solve_` model evaluated over the prime field 2^61-1. -/
 open Driver AslModel
 
@@ -12,6 +14,7 @@ namespace Driver.C20
 
 abbrev F := Fp.fld
 abbrev C := Fp.cmp
+abbrev T := Fp.trig
 
 def nums (ts : List String) : Option (Array Nat) :=
   (ts.mapM fun (s : String) => s.toNat?.map (· % Fp.P)).map List.toArray
@@ -99,6 +102,17 @@ def step (_ : Unit) (ts : List String) : Unit × String :=
         else if op == "v3lin" && n == 7 then
           showV3 (Gen.V3.sub F (Gen.V3.add F (v3Of v 0) (Gen.V3.smul F (v3Of v 3) (v.getD 6 0))) (v3Of v 3))
         else if op == "v3len2" && n == 3 then toString (Gen.V3.length2 F (v3Of v 0))
+        else if op == "qfaa" && n == 4 then showQ (Gen.AA.fromAxisAngle F C T (v3Of v 0) (v.getD 3 0))
+        else if op == "qfaau" && n == 4 then showQ (Gen.AA.fromAxisAngleU F T (v3Of v 0) (v.getD 3 0))
+        else if op == "qfrv" && n == 3 then showQ (Gen.AA.fromRotVec F C T (v3Of v 0))
+        else if op == "qangle" && n == 4 then toString (Gen.AA.angle F C T (quatOf v))
+        else if op == "qaxang" && n == 4 then showV3 (Gen.AA.axisAngle F C T (quatOf v))
+        else if op == "qaart" && n == 4 then show2 4 4 (Gen.Q.matrix F (Gen.AA.fromRotVec F C T (Gen.AA.axisAngle F C T (quatOf v))))
+        else if op == "m4rotaa" && n == 4 then show2 4 4 (Gen.AA.rotateAA F C T (v3Of v 0) (v.getD 3 0))
+        else if op == "m4rotv" && n == 3 then show2 4 4 (Gen.AA.rotateVec F C T (v3Of v 0))
+        else if op == "m4axang" && n == 16 then showV3 (Gen.AA.matAxisAngle F C T (matOf 4 v))
+        else if op == "m4rote" && n == 6 then
+          show2 4 4 (Gen.M4.rotateE F T (v3Of v 0) (v.getD 3 0 % 3) (v.getD 4 0 % 3) (v.getD 5 0 % 3))
         else if op == "qmat" && n == 4 then show2 4 4 (Gen.Q.matrix F (quatOf v))
         else if op == "qmul" && n == 8 then showQ (Gen.Q.mul F (quatOf v) (quatOf v 4))
         else if op == "qconj" && n == 4 then showQ (Gen.Q.conj F (quatOf v))
